@@ -282,6 +282,13 @@ fn eval_case<P: Property>(p: &P, exec: &mut Exec<P>, case: &P::Case, st: &mut St
     match exec {
         Exec::Direct(local) => {
             let mut obs = Obs::default();
+            // development aid: VERIF_TRACE_DIR=<dir> leaves the case each shard is working on in <dir>/<thread>.json,
+            // so that an abort of the whole process (stack overflow in an in-process check) can be attributed
+            static TRACE: std::sync::OnceLock<Option<String>> = std::sync::OnceLock::new();
+            if let Some(dir) = TRACE.get_or_init(|| std::env::var("VERIF_TRACE_DIR").ok()) {
+                let name = std::thread::current().name().unwrap_or("main").to_string();
+                let _ = std::fs::write(format!("{dir}/{name}.json"), serde_json::to_string(case).unwrap_or_default());
+            }
             match catch(|| p.check(case, local, &mut obs)) {
                 Ok(v) => (v, obs),
                 Err(msg) => {
